@@ -53,18 +53,20 @@ type verifMon struct {
 // monitors: ghost counters (no scheduling point of their own) around one explicit scheduling point,
 // so that two critical sections overlap in some explored interleaving exactly when exclusion is broken
 func (mon *verifMon) read(ratio int) {
+	symx.YieldOn(mon)
 	r := symx.GhostAdd(&mon.readers, 1)
 	symx.Assert(symx.GhostLoad(&mon.writers) == 0, "no reader inside while a writer holds the key")
 	symx.Assert(int(r) <= ratio, "at most rwRatio readers hold the key")
-	symx.Yield()
+	symx.YieldOn(mon)
 	symx.Assert(symx.GhostLoad(&mon.writers) == 0, "no writer enters while a reader holds the key")
 	symx.GhostAdd(&mon.readers, -1)
 }
 
 func (mon *verifMon) write() {
+	symx.YieldOn(mon)
 	w := symx.GhostAdd(&mon.writers, 1)
 	symx.Assert(w == 1 && symx.GhostLoad(&mon.readers) == 0, "a writer holds the key alone")
-	symx.Yield()
+	symx.YieldOn(mon)
 	symx.Assert(symx.GhostLoad(&mon.writers) == 1 && symx.GhostLoad(&mon.readers) == 0, "nobody enters while a writer holds the key")
 	symx.GhostAdd(&mon.writers, -1)
 }
